@@ -113,12 +113,27 @@ def q_reach_allow(ctx, p):
                 v = enc.debug_value(name)
                 if v is None:
                     return dict(status="inconclusive", reason="source variable %r not found/tracked in %s" % (name, fn.name))
-                s.add(v == val)
+                s.add(v == (z3.StringVal(val) if isinstance(val, str) else val))
+            for pat, val, *rel in (p.get("assume_disc") or []):
+                hit = False
+                for b2 in enc.order:
+                    for k2, v2 in enc.out_state[b2].items():
+                        if not k2.startswith("disc:"):
+                            continue
+                        desc = k2 + " : " + " ".join(fn.locals.get(l, "") for l in re.findall(r"_\d+", k2))
+                        if re.search(pat, desc):
+                            s.add(v2 != val if (rel and rel[0] == "ne") else v2 == val)
+                            hit = True
+                if not hit:
+                    return dict(status="inconclusive", reason="assumption discriminant %r not found in %s" % (pat, fn.name))
             for pat, val in (p.get("assume_place") or []):
                 hit = False
                 for b2 in enc.order:
                     for k2, v2 in enc.out_state[b2].items():
                         if k2.startswith("place:") and re.search(pat, k2) and z3.is_bool(v2) == isinstance(val, bool):
+                            s.add(v2 == val)
+                            hit = True
+                        if isinstance(val, int) and not isinstance(val, bool) and re.search(pat, k2) and k2.startswith("len:") and z3.is_int(v2):
                             s.add(v2 == val)
                             hit = True
                 if not hit:
@@ -161,6 +176,10 @@ def q_reach_allow(ctx, p):
                                       what="call %s reachable in %s bb%d under %s" % (nc, where, b, p.get("assume", []))))
         details.append("%s: %d call sites examined" % (fn.name.split(">::")[-1], len(enc.call_sites())))
     miss = [p["must_reach"][i] for i in range(len(must)) if i not in must_seen]
+    if miss and p.get("must_reach_violation"):
+        for mm in miss:
+            witnesses.append(dict(key="%s: %s not reached" % (short_fn(fns[0].name), mm),
+                                  what="under the stated assumptions (%s) no execution reaches a call matching %s" % (p.get("assume_text", "see query"), mm)))
     if miss and not witnesses:
         return dict(status="inconclusive", reason="vacuity guard: expected reachable calls not found: %s" % miss,
                     obligations=obligations, discharged=discharged, functions=functions, details=details)
